@@ -21,7 +21,7 @@ CLASSES = ["box", "extrude", "revolve", "wedge", "cylinder", "semicylinder", "fr
            "chain:cylinder", "chain:elbow", "chain:frustum", "chain:hemisphere", "chain:4", "ring:chain", "ring:expand", "ring:contract",
            "ring:fill", "cyl:expand"]
 REQUIRED = ["judged:jacobians", "judged:connected", "judged:no-duplicate-vertices", "judged:arc-on-circle", "judged:chops-sufficient",
-            "judged:interface", "judged:vertex-count"] + [f"class:{c}" for c in CLASSES]
+            "judged:interface", "judged:vertex-count", "judged:sweep-arc-about-the-axis"] + [f"class:{c}" for c in CLASSES]
 MIN_KEYS = 60
 RULE = (
     "every predefined class (Box, Extrude, Revolve, Wedge, Cylinder, SemiCylinder, Frustum, Elbow, ExtrudedRing, RevolvedRing, "
@@ -59,7 +59,7 @@ def build(case, cb):
     rng = random.Random(case["seed"])
     cls = case["cls"]
     o, fr = c09.frame_from(rng)
-    info = {"circles": [], "interfaces": [], "expect_vertices": None, "size": 1.0, "detail": None}
+    info = {"circles": [], "interfaces": [], "expect_vertices": None, "size": 1.0, "detail": None, "axis": None}
     kw = lambda s=1.0: chopkw(rng, case, s)  # noqa: E731
     r = rng.uniform(0.5, 1.5)
     L = rng.uniform(1.0, 3.0)
@@ -77,7 +77,9 @@ def build(case, cb):
             quad = [(-1, -1), (1, -1), (1, 1), (-1, 1)]
             base = [list(o + fr[0] * (x * rng.uniform(0.5, 1.5)) + fr[1] * (y * rng.uniform(0.5, 1.5))) for x, y in quad]
             # the face normal is fr[2]; a positive angle about fr[0] through a point on the -fr[1] side lifts it towards +fr[2]
-            op = cb.Revolve(cb.Face(base), rng.uniform(0.3, 1.2), list(fr[0] * 2), list(o - fr[1] * rng.uniform(3, 5)))
+            ro = o - fr[1] * rng.uniform(3, 5)
+            op = cb.Revolve(cb.Face(base), rng.uniform(0.3, 1.2), list(fr[0] * 2), list(ro))
+            info["axis"] = (ro, fr[0])
         else:
             op, _ = c09.make_entity({"group": "op", "kind": cls, "seed": case["seed"]}, cb)
         for a in range(3):
@@ -121,6 +123,7 @@ def build(case, cb):
         face = cb.Face([list(c), list(c + fr[2] * 0.8), list(c + fr[2] * 0.8 + fr[0] * 0.5), list(c + fr[0] * 0.6)])
         n = rng.randint(3, 10)
         sh = cb.RevolvedRing(list(o), list(o + fr[2] * 2), face, n_segments=n)
+        info["axis"] = (o, fr[2])
         sh.chop_axial(**kw())
         sh.chop_radial(**kw())
         sh.chop_tangential(**kw())
@@ -130,7 +133,9 @@ def build(case, cb):
         return [sh], info
     if cls == "revolvedshape":
         sk = c09.make_sketch(rng.choice(["onecore", "fourcore", "oval"]), rng, o, fr, cb)
-        sh = cb.RevolvedShape(sk, rng.uniform(0.3, 1.0), list(fr[0] * 1.5), list(o - fr[1] * rng.uniform(4, 6)))
+        ro = o - fr[1] * rng.uniform(4, 6)
+        sh = cb.RevolvedShape(sk, rng.uniform(0.3, 1.0), list(fr[0] * 1.5), list(ro))
+        info["axis"] = (ro, fr[0])
         sh.chop(0, **kw(0.5))
         sh.chop(1, **kw(0.5))
         sh.chop(2, **kw(0.5))
@@ -166,7 +171,9 @@ def build(case, cb):
         return [box, sh], info
     if cls.endswith("stack"):
         nx, ny, nt = rng.randint(1, 3), rng.randint(1, 3), rng.randint(1, 3)
-        st, _ = make_stack(cls, rng, o, nx, ny, nt, cb)
+        st, frame = make_stack(cls, rng, o, nx, ny, nt, cb)
+        if cls == "revolvedstack":
+            info["axis"] = (frame[0] - frame[2] * 4, frame[1])
         st.chop(**kw())
         for i in range(nx):
             st.grid[0][0][i].chop(0, **kw(0.5))
@@ -402,6 +409,34 @@ def run_case(ctx, case):
                 if not on(p) or np.dot(p - c, mid_dir) <= 0:
                     ctx.violation(f"arc-off-the-intended-circle:{cls}",
                                   f"{cls} seed {case['seed']}: arc {e['a']} {e['b']} third point {list(p)}: radius {np.linalg.norm(p - c)} (circle R={R}), out of plane {np.dot(p - c, n)}")
+                    return
+    # (3b) sweep arcs of revolved entities: end points at one radius and height about the revolve axis -> the third
+    # point is at the same radius and height, between them
+    if info["axis"] is not None:
+        ao, ad = np.array(info["axis"][0], dtype=float), geom.unit(info["axis"][1])
+
+        def polar(x):
+            v = np.array(x, dtype=float) - ao
+            h = float(np.dot(v, ad))
+            radial = v - h * ad
+            return h, float(np.linalg.norm(radial)), radial
+
+        for e in parsed["edges"]:
+            if e["kind"] != "arc":
+                continue
+            ha, ra, va = polar(vpos[e["a"]])
+            hb, rb, vb = polar(vpos[e["b"]])
+            if abs(ha - hb) < 1e-6 * size and abs(ra - rb) < 1e-6 * size and ra > 1e-3 * size and np.linalg.norm(va - vb) > 1e-6 * size:
+                hp, rp, vp = polar(e["point"])
+                ctx.count("judged:sweep-arc-about-the-axis")
+                def ang(x, y):
+                    return math.acos(max(-1.0, min(1.0, float(np.dot(x, y)) / (np.linalg.norm(x) * np.linalg.norm(y)))))
+
+                between = abs(ang(va, vp) + ang(vp, vb) - ang(va, vb)) < 1e-6
+                if abs(hp - ha) > 1e-6 * size or abs(rp - ra) > 1e-6 * size or not between:
+                    ctx.violation(f"sweep-arc-off-its-circle:{cls}",
+                                  f"{cls} seed {case['seed']}: arc {e['a']} {e['b']}: ends at radius {ra:.6f} height {ha:.6f} about the revolve "
+                                  f"axis, third point at radius {rp:.6f} height {hp:.6f}" + ("" if between else " - not between the two end points"))
                     return
     # (5) interfaces
     for itf in info["interfaces"]:
